@@ -73,37 +73,8 @@ theorem model_matrices_are_JW :
     madd (mmul c1 c2) (mmul c2 c1) = zeros 4 4 ∧ madd (mmul c1 c2dag) (mmul c2dag c1) = zeros 4 4 := by
   decide
 
-/-- the list product of the model is the matrix product (on the matrices used) -/
-theorem toM_mmul_KK : toM ℤ 4 (mmul K K) = toM ℤ 4 K * toM ℤ 4 K := by decide
-
-section relations
-variable (R : Type*) [Ring R]
-
-theorem toM_I4 : toM R 4 I4 = 1 := toM_one_of R (by decide)
-theorem toM_I2 : toM R 2 I2 = 1 := toM_one_of R (by decide)
-theorem K_sq : toM R 4 K * toM R 4 K = toM R 4 NH := toM_mul_of R (by decide)
-theorem K_cube : toM R 4 K * toM R 4 K * toM R 4 K = toM R 4 K := by
-  rw [K_sq]; exact toM_mul_of R (by decide)
-theorem XX_sq : toM R 4 XX * toM R 4 XX = 1 := toM_mul_one_of R (by decide)
-theorem X_sq : toM R 2 X * toM R 2 X = 1 := toM_mul_one_of R (by decide)
-theorem n_idem : toM R 2 nOcc * toM R 2 nOcc = toM R 2 nOcc := toM_mul_of R (by decide)
-theorem Pdn_idem : toM R 4 Pdn * toM R 4 Pdn = toM R 4 Pdn := toM_mul_of R (by decide)
-theorem Pup_idem : toM R 4 Pup * toM R 4 Pup = toM R 4 Pup := toM_mul_of R (by decide)
-theorem Pud_idem : toM R 4 Pud * toM R 4 Pud = toM R 4 Pud := toM_mul_of R (by decide)
-theorem P00_idem : toM R 4 P00 * toM R 4 P00 = toM R 4 P00 := toM_mul_of R (by decide)
-theorem Pdn_Pup : toM R 4 Pdn * toM R 4 Pup = 0 := toM_mul_zero_of R (by decide)
-theorem Pdn_Pud : toM R 4 Pdn * toM R 4 Pud = 0 := toM_mul_zero_of R (by decide)
-theorem Pup_Pdn : toM R 4 Pup * toM R 4 Pdn = 0 := toM_mul_zero_of R (by decide)
-theorem Pup_Pud : toM R 4 Pup * toM R 4 Pud = 0 := toM_mul_zero_of R (by decide)
-theorem Pud_Pdn : toM R 4 Pud * toM R 4 Pdn = 0 := toM_mul_zero_of R (by decide)
-theorem Pud_Pup : toM R 4 Pud * toM R 4 Pup = 0 := toM_mul_zero_of R (by decide)
-theorem nUp_split : toM R 4 Pup + toM R 4 Pud = toM R 4 nUp := toM_add_of R (by decide)
-theorem nDn_split : toM R 4 Pdn + toM R 4 Pud = toM R 4 nDn := toM_add_of R (by decide)
-theorem nUpDn_eq : toM R 4 nUpDn = toM R 4 Pud := by
-  rw [toM_map R 4 nUpDn, toM_map R 4 Pud, show toM ℤ 4 nUpDn = toM ℤ 4 Pud by decide]
-theorem nUp_mul_nDn : toM R 4 nUp * toM R 4 nDn = toM R 4 nUpDn := toM_mul_of R (by decide)
-
-end relations
+/-! The relations `K_sq`, `K_cube`, `XX_sq`, `X_sq`, `n_idem`, `P*_idem`, `P*_P*`, `nUp_split`, … used below are decided
+over `ℤ` on the same list matrices and transported to `ℝ`/`ℂ` in `YProofs/Lemmas/GateMatrix.lean`. -/
 
 /-! ## general statements: any matrices with the algebraic relation (cover all symmetry variants) -/
 
